@@ -32,11 +32,17 @@
 (*   HeapFifo         FALSE = the heap ignores timestamps within a priority    *)
 (*   SlotStrict       FALSE = slot test `count > size` instead of `>=`         *)
 (*   CallsStopAll     FALSE = cancellation does not release the waiters        *)
+(*   PushBeforeRegister TRUE = the request id is pushed into the queue before   *)
+(*                            the request is registered with the watcher: a    *)
+(*                            tick in between pops an id it cannot find         *)
+(*   FaultDropsHead   TRUE  = a failed quota consultation makes the loop give   *)
+(*                            up the popped head without pushing it back        *)
+(* Faults = TRUE lets any quota consultation of the loop fail (environment).    *)
 EXTENDS Integers, Sequences, FiniteSets, TLC
 
 CONSTANTS Req, Prio, TTL, Slack, QueueSize, QMax, QW, MaxNow, Shutdowns,
           SplitSlotCheck, RequeueNewTs, StopAllGuarded, DrainRepeats,
-          WatcherArbitrates, HeapFifo, SlotStrict, CallsStopAll
+          WatcherArbitrates, HeapFifo, SlotStrict, CallsStopAll, PushBeforeRegister, FaultDropsHead, Faults
 
 P == INSTANCE FlowQueueP
 
@@ -103,18 +109,31 @@ process (R \in Req)
     expireAt[self] := now + TTL;
     emit([ev |-> "arrive", id |-> self, prio |-> Prio[self], t |-> now]);
     if (Full(count)) { goto Refuse; };
- Enroll:    \* AddRequest (count - repaired: test and increment in one step -, watch list), queue.Enqueue [-> event q.enqueued]
+ Enroll:    \* first step of the enrolment: AddRequest (count - repaired: test and increment in one step -, watch list)
+            \*                                                                       [yield q.after_slot_check ->]
     await ~ps.dead;
     if (~SplitSlotCheck /\ Full(count)) {
         goto Refuse;
     } else {
         count := count + 1;
+        if (PushBeforeRegister) {
+            hs := Append(hs, self);
+            nord := nord + 1;
+            ord[self] := nord;
+        } else {
+            watch := watch \cup {self};
+        };
+    };
+ Push:      \* second step: queue.Enqueue - the id becomes visible to the loop        [yield mq.enqueue -> event q.enqueued]
+    await ~ps.dead;
+    if (PushBeforeRegister) {
         watch := watch \cup {self};
+    } else {
         hs := Append(hs, self);
         nord := nord + 1;
         ord[self] := nord;
-        emit(EvI("enq", self));
     };
+    emit(EvI("enq", self));
  Wait:      \* Request.Wait
     await wg[self] <= 0 /\ ~ps.dead;
  Return:
@@ -130,7 +149,7 @@ process (R \in Req)
 }
 
 process (Loop = "loop")
-variables cur = NoReq;
+variables cur = NoReq, fl = FALSE;
 {
  Tick:      \* process(): after the 100 ms timer                                     [yield q.loop_tick ->]
     await ~ps.dead;
@@ -159,11 +178,18 @@ variables cur = NoReq;
         emit(Ev("pick"));
         goto Tick;
     } else {
-        with (k \in Heads(hs)) {
+        with (k \in Heads(hs),
+              f \in (IF Faults /\ ~inDrain /\ hs[k] \in watch /\ state[hs[k]] = "enqueued" THEN BOOLEAN ELSE {FALSE})) {
             cur := hs[k];
             hs := Without(hs, hs[k]);
+            fl := f;
         };
-        if (cur \in watch /\ state[cur] = "enqueued") {
+        if (fl) {
+            \* the quota cannot be consulted (GetQuota fails): nothing is admitted, the answer reads "not allowed"
+            state[cur] := "processing";
+            emit2(Ev("pick"), [ev |-> "quota", id |-> cur, ok |-> FALSE]);
+            goto Faulted;
+        } else if (cur \in watch /\ state[cur] = "enqueued") {
             state[cur] := "processing";
             \* fixed window anchored at the first admitted increment after the previous window ran out
             with (fresh = now - qwin >= QW, c = IF now - qwin >= QW THEN 0 ELSE qcnt) {
@@ -187,6 +213,14 @@ variables cur = NoReq;
     state[cur] := "processed";
     signal(cur, EvI("grant", cur));
     iterate();
+ Faulted:   \* a failed consultation is handled like a blocked one: push back, StopProcessing, return  [yield q.quota ->]
+    if (~FaultDropsHead) {
+        hs := IF RequeueNewTs THEN Append(hs, cur) ELSE InsertByOrd(hs, cur, ord);
+    };
+    state[cur] := "enqueued";
+    requeued := requeued \cup {cur};
+    fl := FALSE;
+    goto Tick;
  Requeue:   \* queue.Enqueue again, StopProcessing, return                          [yield q.quota ->]
     hs := IF RequeueNewTs THEN Append(hs, cur) ELSE InsertByOrd(hs, cur, ord);
     state[cur] := "enqueued";
@@ -233,10 +267,10 @@ VARIABLES pc, now, cancelled, count, watch, hs, ord, nord, state, result, wg,
 Ev(name) == [ev |-> name, t |-> now]
 EvI(name, i) == [ev |-> name, id |-> i, t |-> now]
 
-VARIABLES cur, w
+VARIABLES cur, fl, w
 
 vars == << pc, now, cancelled, count, watch, hs, ord, nord, state, result, wg, 
-           expireAt, qwin, qcnt, inDrain, requeued, ps, viol, cur, w >>
+           expireAt, qwin, qcnt, inDrain, requeued, ps, viol, cur, fl, w >>
 
 ProcSet == (Req) \cup {"loop"} \cup {"watcher"} \cup {"shutdown"} \cup {"clock"}
 
@@ -260,6 +294,7 @@ Init == (* Global variables *)
         /\ viol = {}
         (* Process Loop *)
         /\ cur = NoReq
+        /\ fl = FALSE
         (* Process Watcher *)
         /\ w = NoReq
         /\ pc = [self \in ProcSet |-> CASE self \in Req -> "Arrive"
@@ -278,31 +313,48 @@ Arrive(self) == /\ pc[self] = "Arrive"
                       ELSE /\ pc' = [pc EXCEPT ![self] = "Enroll"]
                 /\ UNCHANGED << now, cancelled, count, watch, hs, ord, nord, 
                                 state, result, wg, qwin, qcnt, inDrain, 
-                                requeued, cur, w >>
+                                requeued, cur, fl, w >>
 
 Enroll(self) == /\ pc[self] = "Enroll"
                 /\ ~ps.dead
                 /\ IF ~SplitSlotCheck /\ Full(count)
                       THEN /\ pc' = [pc EXCEPT ![self] = "Refuse"]
-                           /\ UNCHANGED << count, watch, hs, ord, nord, ps, 
-                                           viol >>
+                           /\ UNCHANGED << count, watch, hs, ord, nord >>
                       ELSE /\ count' = count + 1
-                           /\ watch' = (watch \cup {self})
-                           /\ hs' = Append(hs, self)
-                           /\ nord' = nord + 1
-                           /\ ord' = [ord EXCEPT ![self] = nord']
-                           /\ /\ ps' = P!Step(ps, (EvI("enq", self)))
-                              /\ viol' = P!Viol(ps, (EvI("enq", self)))
-                           /\ pc' = [pc EXCEPT ![self] = "Wait"]
+                           /\ IF PushBeforeRegister
+                                 THEN /\ hs' = Append(hs, self)
+                                      /\ nord' = nord + 1
+                                      /\ ord' = [ord EXCEPT ![self] = nord']
+                                      /\ watch' = watch
+                                 ELSE /\ watch' = (watch \cup {self})
+                                      /\ UNCHANGED << hs, ord, nord >>
+                           /\ pc' = [pc EXCEPT ![self] = "Push"]
                 /\ UNCHANGED << now, cancelled, state, result, wg, expireAt, 
-                                qwin, qcnt, inDrain, requeued, cur, w >>
+                                qwin, qcnt, inDrain, requeued, ps, viol, cur, 
+                                fl, w >>
+
+Push(self) == /\ pc[self] = "Push"
+              /\ ~ps.dead
+              /\ IF PushBeforeRegister
+                    THEN /\ watch' = (watch \cup {self})
+                         /\ UNCHANGED << hs, ord, nord >>
+                    ELSE /\ hs' = Append(hs, self)
+                         /\ nord' = nord + 1
+                         /\ ord' = [ord EXCEPT ![self] = nord']
+                         /\ watch' = watch
+              /\ /\ ps' = P!Step(ps, (EvI("enq", self)))
+                 /\ viol' = P!Viol(ps, (EvI("enq", self)))
+              /\ pc' = [pc EXCEPT ![self] = "Wait"]
+              /\ UNCHANGED << now, cancelled, count, state, result, wg, 
+                              expireAt, qwin, qcnt, inDrain, requeued, cur, fl, 
+                              w >>
 
 Wait(self) == /\ pc[self] = "Wait"
               /\ wg[self] <= 0 /\ ~ps.dead
               /\ pc' = [pc EXCEPT ![self] = "Return"]
               /\ UNCHANGED << now, cancelled, count, watch, hs, ord, nord, 
                               state, result, wg, expireAt, qwin, qcnt, inDrain, 
-                              requeued, ps, viol, cur, w >>
+                              requeued, ps, viol, cur, fl, w >>
 
 Return(self) == /\ pc[self] = "Return"
                 /\ /\ ps' = P!Step(ps, ([ev |-> "verdict", id |-> self, out |-> IF result[self] = "success" THEN "allowed" ELSE "blocked", t |-> now]))
@@ -310,7 +362,7 @@ Return(self) == /\ pc[self] = "Return"
                 /\ pc' = [pc EXCEPT ![self] = "Remove"]
                 /\ UNCHANGED << now, cancelled, count, watch, hs, ord, nord, 
                                 state, result, wg, expireAt, qwin, qcnt, 
-                                inDrain, requeued, cur, w >>
+                                inDrain, requeued, cur, fl, w >>
 
 Remove(self) == /\ pc[self] = "Remove"
                 /\ ~ps.dead
@@ -320,7 +372,7 @@ Remove(self) == /\ pc[self] = "Remove"
                 /\ pc' = [pc EXCEPT ![self] = "Done"]
                 /\ UNCHANGED << now, cancelled, ord, nord, state, result, wg, 
                                 expireAt, qwin, qcnt, inDrain, requeued, ps, 
-                                viol, cur, w >>
+                                viol, cur, fl, w >>
 
 Refuse(self) == /\ pc[self] = "Refuse"
                 /\ /\ ps' = P!Step(ps, ([ev |-> "verdict", id |-> self, out |-> "blocked", t |-> now]))
@@ -328,10 +380,10 @@ Refuse(self) == /\ pc[self] = "Refuse"
                 /\ pc' = [pc EXCEPT ![self] = "Done"]
                 /\ UNCHANGED << now, cancelled, count, watch, hs, ord, nord, 
                                 state, result, wg, expireAt, qwin, qcnt, 
-                                inDrain, requeued, cur, w >>
+                                inDrain, requeued, cur, fl, w >>
 
-R(self) == Arrive(self) \/ Enroll(self) \/ Wait(self) \/ Return(self)
-              \/ Remove(self) \/ Refuse(self)
+R(self) == Arrive(self) \/ Enroll(self) \/ Push(self) \/ Wait(self)
+              \/ Return(self) \/ Remove(self) \/ Refuse(self)
 
 Tick == /\ pc["loop"] = "Tick"
         /\ ~ps.dead
@@ -357,7 +409,7 @@ Tick == /\ pc["loop"] = "Tick"
                          ELSE /\ pc' = [pc EXCEPT !["loop"] = "Pop"]
                    /\ UNCHANGED << state, result, wg, inDrain, ps, viol >>
         /\ UNCHANGED << now, cancelled, count, watch, hs, ord, nord, expireAt, 
-                        qwin, qcnt, requeued, cur, w >>
+                        qwin, qcnt, requeued, cur, fl, w >>
 
 Pop == /\ pc["loop"] = "Pop"
        /\ ~ps.dead
@@ -365,30 +417,39 @@ Pop == /\ pc["loop"] = "Pop"
              THEN /\ /\ ps' = P!Step(ps, (Ev("pick")))
                      /\ viol' = P!Viol(ps, (Ev("pick")))
                   /\ pc' = [pc EXCEPT !["loop"] = "Tick"]
-                  /\ UNCHANGED << hs, state, qwin, qcnt, cur >>
+                  /\ UNCHANGED << hs, state, qwin, qcnt, cur, fl >>
              ELSE /\ \E k \in Heads(hs):
-                       /\ cur' = hs[k]
-                       /\ hs' = Without(hs, hs[k])
-                  /\ IF cur' \in watch /\ state[cur'] = "enqueued"
+                       \E f \in (IF Faults /\ ~inDrain /\ hs[k] \in watch /\ state[hs[k]] = "enqueued" THEN BOOLEAN ELSE {FALSE}):
+                         /\ cur' = hs[k]
+                         /\ hs' = Without(hs, hs[k])
+                         /\ fl' = f
+                  /\ IF fl'
                         THEN /\ state' = [state EXCEPT ![cur'] = "processing"]
-                             /\ LET fresh == now - qwin >= QW IN
-                                  LET c == IF now - qwin >= QW THEN 0 ELSE qcnt IN
-                                    IF ~inDrain /\ c < QMax
-                                       THEN /\ qcnt' = c + 1
-                                            /\ qwin' = IF fresh THEN now ELSE qwin
-                                            /\ /\ ps' = P!Step(P!Step(ps, (Ev("pick"))), ([ev |-> "quota", id |-> cur', ok |-> TRUE]))
-                                               /\ viol' = (P!Viol(ps, (Ev("pick"))) \cup P!Viol(P!Step(ps, (Ev("pick"))), ([ev |-> "quota", id |-> cur', ok |-> TRUE])))
-                                            /\ pc' = [pc EXCEPT !["loop"] = "Grant"]
-                                       ELSE /\ /\ ps' = P!Step(P!Step(ps, (Ev("pick"))), ([ev |-> "quota", id |-> cur', ok |-> FALSE]))
-                                               /\ viol' = (P!Viol(ps, (Ev("pick"))) \cup P!Viol(P!Step(ps, (Ev("pick"))), ([ev |-> "quota", id |-> cur', ok |-> FALSE])))
-                                            /\ pc' = [pc EXCEPT !["loop"] = "Requeue"]
-                                            /\ UNCHANGED << qwin, qcnt >>
-                        ELSE /\ /\ ps' = P!Step(ps, (Ev("pick")))
-                                /\ viol' = P!Viol(ps, (Ev("pick")))
-                             /\ IF hs' = <<>>
-                                   THEN /\ pc' = [pc EXCEPT !["loop"] = "Tick"]
-                                   ELSE /\ pc' = [pc EXCEPT !["loop"] = "Pop"]
-                             /\ UNCHANGED << state, qwin, qcnt >>
+                             /\ /\ ps' = P!Step(P!Step(ps, (Ev("pick"))), ([ev |-> "quota", id |-> cur', ok |-> FALSE]))
+                                /\ viol' = (P!Viol(ps, (Ev("pick"))) \cup P!Viol(P!Step(ps, (Ev("pick"))), ([ev |-> "quota", id |-> cur', ok |-> FALSE])))
+                             /\ pc' = [pc EXCEPT !["loop"] = "Faulted"]
+                             /\ UNCHANGED << qwin, qcnt >>
+                        ELSE /\ IF cur' \in watch /\ state[cur'] = "enqueued"
+                                   THEN /\ state' = [state EXCEPT ![cur'] = "processing"]
+                                        /\ LET fresh == now - qwin >= QW IN
+                                             LET c == IF now - qwin >= QW THEN 0 ELSE qcnt IN
+                                               IF ~inDrain /\ c < QMax
+                                                  THEN /\ qcnt' = c + 1
+                                                       /\ qwin' = IF fresh THEN now ELSE qwin
+                                                       /\ /\ ps' = P!Step(P!Step(ps, (Ev("pick"))), ([ev |-> "quota", id |-> cur', ok |-> TRUE]))
+                                                          /\ viol' = (P!Viol(ps, (Ev("pick"))) \cup P!Viol(P!Step(ps, (Ev("pick"))), ([ev |-> "quota", id |-> cur', ok |-> TRUE])))
+                                                       /\ pc' = [pc EXCEPT !["loop"] = "Grant"]
+                                                  ELSE /\ /\ ps' = P!Step(P!Step(ps, (Ev("pick"))), ([ev |-> "quota", id |-> cur', ok |-> FALSE]))
+                                                          /\ viol' = (P!Viol(ps, (Ev("pick"))) \cup P!Viol(P!Step(ps, (Ev("pick"))), ([ev |-> "quota", id |-> cur', ok |-> FALSE])))
+                                                       /\ pc' = [pc EXCEPT !["loop"] = "Requeue"]
+                                                       /\ UNCHANGED << qwin, 
+                                                                       qcnt >>
+                                   ELSE /\ /\ ps' = P!Step(ps, (Ev("pick")))
+                                           /\ viol' = P!Viol(ps, (Ev("pick")))
+                                        /\ IF hs' = <<>>
+                                              THEN /\ pc' = [pc EXCEPT !["loop"] = "Tick"]
+                                              ELSE /\ pc' = [pc EXCEPT !["loop"] = "Pop"]
+                                        /\ UNCHANGED << state, qwin, qcnt >>
        /\ UNCHANGED << now, cancelled, count, watch, ord, nord, result, wg, 
                        expireAt, inDrain, requeued, w >>
 
@@ -406,7 +467,19 @@ Grant == /\ pc["loop"] = "Grant"
                THEN /\ pc' = [pc EXCEPT !["loop"] = "Tick"]
                ELSE /\ pc' = [pc EXCEPT !["loop"] = "Pop"]
          /\ UNCHANGED << now, cancelled, count, watch, hs, ord, nord, expireAt, 
-                         qwin, qcnt, inDrain, requeued, cur, w >>
+                         qwin, qcnt, inDrain, requeued, cur, fl, w >>
+
+Faulted == /\ pc["loop"] = "Faulted"
+           /\ IF ~FaultDropsHead
+                 THEN /\ hs' = IF RequeueNewTs THEN Append(hs, cur) ELSE InsertByOrd(hs, cur, ord)
+                 ELSE /\ TRUE
+                      /\ hs' = hs
+           /\ state' = [state EXCEPT ![cur] = "enqueued"]
+           /\ requeued' = (requeued \cup {cur})
+           /\ fl' = FALSE
+           /\ pc' = [pc EXCEPT !["loop"] = "Tick"]
+           /\ UNCHANGED << now, cancelled, count, watch, ord, nord, result, wg, 
+                           expireAt, qwin, qcnt, inDrain, ps, viol, cur, w >>
 
 Requeue == /\ pc["loop"] = "Requeue"
            /\ hs' = IF RequeueNewTs THEN Append(hs, cur) ELSE InsertByOrd(hs, cur, ord)
@@ -414,9 +487,9 @@ Requeue == /\ pc["loop"] = "Requeue"
            /\ requeued' = (requeued \cup {cur})
            /\ pc' = [pc EXCEPT !["loop"] = "Tick"]
            /\ UNCHANGED << now, cancelled, count, watch, ord, nord, result, wg, 
-                           expireAt, qwin, qcnt, inDrain, ps, viol, cur, w >>
+                           expireAt, qwin, qcnt, inDrain, ps, viol, cur, fl, w >>
 
-Loop == Tick \/ Pop \/ Grant \/ Requeue
+Loop == Tick \/ Pop \/ Grant \/ Faulted \/ Requeue
 
 Scan == /\ pc["watcher"] = "Scan"
         /\ ~ps.dead
@@ -429,7 +502,7 @@ Scan == /\ pc["watcher"] = "Scan"
         /\ pc' = [pc EXCEPT !["watcher"] = "Signal"]
         /\ UNCHANGED << now, cancelled, count, watch, hs, ord, nord, result, 
                         wg, expireAt, qwin, qcnt, inDrain, requeued, ps, viol, 
-                        cur >>
+                        cur, fl >>
 
 Signal == /\ pc["watcher"] = "Signal"
           /\ ~ps.dead
@@ -443,7 +516,7 @@ Signal == /\ pc["watcher"] = "Signal"
           /\ wg' = [wg EXCEPT ![w] = wg[w] - 1]
           /\ pc' = [pc EXCEPT !["watcher"] = "Scan"]
           /\ UNCHANGED << now, cancelled, count, watch, hs, ord, nord, 
-                          expireAt, qwin, qcnt, inDrain, requeued, cur, w >>
+                          expireAt, qwin, qcnt, inDrain, requeued, cur, fl, w >>
 
 Watcher == Scan \/ Signal
 
@@ -454,7 +527,7 @@ Cancel == /\ pc["shutdown"] = "Cancel"
              /\ viol' = P!Viol(ps, (Ev("shutdown")))
           /\ pc' = [pc EXCEPT !["shutdown"] = "Done"]
           /\ UNCHANGED << now, count, watch, hs, ord, nord, state, result, wg, 
-                          expireAt, qwin, qcnt, inDrain, requeued, cur, w >>
+                          expireAt, qwin, qcnt, inDrain, requeued, cur, fl, w >>
 
 Sh == Cancel
 
@@ -466,7 +539,7 @@ Tk == /\ pc["clock"] = "Tk"
                  /\ now' = now
       /\ UNCHANGED << cancelled, count, watch, hs, ord, nord, state, result, 
                       wg, expireAt, qwin, qcnt, inDrain, requeued, ps, viol, 
-                      cur, w >>
+                      cur, fl, w >>
 
 Clk == Tk
 
@@ -518,7 +591,7 @@ FairSpec == /\ Spec
             /\ SF_vars(~cancelled /\ Scan) /\ WF_vars(Signal)
             /\ WF_vars(Clk)
 \* every request that reached the processor gets its verdict (InTTL, eventual form; DrainSafe with shutdown)
-Answered == \A i \in Req : (pc[i] \in {"Enroll", "Wait"}) ~> (pc[i] \in {"Return", "Remove", "Done"} \/ ps.dead)
+Answered == \A i \in Req : (pc[i] \in {"Enroll", "Push", "Wait"}) ~> (pc[i] \in {"Return", "Remove", "Done"} \/ ps.dead)
 
 \* fingerprint of a state: everything (`requeued` is bookkeeping for OrderKF and the witnesses, it follows from the rest
 \* of the history only, so it stays in)
